@@ -231,6 +231,39 @@ class Interp:
                 cur = out
         return cur.copy()
 
+    def p_sort(self, e, *xs):
+        """lax.sort: the operands are sorted together along `dimension` by the first `num_keys` operands (lexicographic, ascending, stable): an
+        insertion network of compare-exchange steps over symbolic keys (n <= 16 per lane)"""
+        dim = e.params["dimension"]
+        nk = e.params.get("num_keys", 1)
+        xs = [np.moveaxis(np.array(x, dtype=object), dim, -1) for x in xs]
+        n = xs[0].shape[-1]
+        if n > 16:
+            raise Unsupported(f"sort of {n} elements")
+        o = self.o
+        outs = [np.empty(x.shape, dtype=object) for x in xs]
+        for idx in np.ndindex(*xs[0].shape[:-1]):
+            rows = [list(x[idx]) for x in xs]
+
+            def less(i, j):
+                # row j's key tuple strictly below row i's
+                r = False
+                eq_prefix = True
+                for k in range(nk):
+                    r = o.lor(r, o.land(eq_prefix, o.lt(rows[k][j], rows[k][i])))
+                    eq_prefix = o.land(eq_prefix, o.eq(rows[k][j], rows[k][i]))
+                return r
+            for p_ in range(n):
+                for i in range(n - 1 - p_):
+                    c = less(i, i + 1)          # swap iff the later element is strictly smaller (stable)
+                    for r_ in rows:
+                        a, b = r_[i], r_[i + 1]
+                        r_[i], r_[i + 1] = o.ite(c, b, a), o.ite(c, a, b)
+            for out_, r_ in zip(outs, rows):
+                for k, v in enumerate(r_):
+                    out_[idx + (k,)] = v
+        return [np.moveaxis(o_, -1, dim) for o_ in outs]
+
     def p_tile(self, e, x):
         return np.tile(x, tuple(e.params["reps"]))
 
